@@ -22,10 +22,16 @@ def load_check(prop):
 
 
 def run_rules(mod, model, tier):
+    """Run the rules; a lost anchor stops the remaining rules but keeps what was decided so far
+    (ctx.anchor_error is set): violations already established are still reported."""
     ctx = Ctx(mod.PROP, model, tier)
-    mod.check(ctx)
-    if tier == 'thorough' and hasattr(mod, 'check_thorough'):
-        mod.check_thorough(ctx)
+    ctx.anchor_error = None
+    try:
+        mod.check(ctx)
+        if tier == 'thorough' and hasattr(mod, 'check_thorough'):
+            mod.check_thorough(ctx)
+    except AnchorError as e:
+        ctx.anchor_error = str(e)
     return ctx
 
 
@@ -48,8 +54,11 @@ def run_variant(mod, base_model, v, tier, base_idents=frozenset()):
     try:
         ctx = run_rules(mod, m, tier)
         floors = check_floors(mod, ctx)
-        if floors and not [i for i in ctx.violations() if i.ident() not in base_idents]:
-            raise AnchorError('; '.join(floors))
+        if not [i for i in ctx.violations() if i.ident() not in base_idents]:
+            if ctx.anchor_error:
+                raise AnchorError(ctx.anchor_error)
+            if floors:
+                raise AnchorError('; '.join(floors))
     except AnchorError as e:
         return {'variant': v.name, 'status': 'anchor', 'why': str(e)}
     except Exception:       # a rule crashed on an unforeseen shape: no verdict for this variant
@@ -152,7 +161,7 @@ def _main(prop, a, seed, timer):
         return 0
 
     ctx = run_rules(mod, model, a.tier)
-    floor_errs = check_floors(mod, ctx)
+    floor_errs = check_floors(mod, ctx) if not ctx.anchor_error else []
 
     if a.list:
         for i in ctx.instances:
@@ -177,7 +186,7 @@ def _main(prop, a, seed, timer):
     variants = [v for v in all_variants if v.kind == 'M'] if a.tier == 'quick' else list(all_variants)
     vres = []
     control_errs = []
-    if not new_viol and not floor_errs:
+    if not new_viol and not floor_errs and not ctx.anchor_error:
         # controls are run on a tree that is clean (or carries only known findings):
         # a control 'fires' only through a construct that is not already violating.
         base_viol = {i.ident() for i in ctx.violations()}
@@ -234,6 +243,8 @@ def _main(prop, a, seed, timer):
             print('%s violated at %s:%d in %s: %s  [key=%r]' % (i.rule, i.file, i.line, i.function, i.detail, i.key))
             print('VIOLATION property=%s replay=%s' % (prop, path))
         return 1
+    if ctx.anchor_error:
+        floor_errs = [ctx.anchor_error] + floor_errs
     if floor_errs or control_errs:
         for e in floor_errs + control_errs:
             print('ANALYSIS-ERROR property=%s %s' % (prop, e))
